@@ -261,8 +261,12 @@ def removal_index(repo, run, rid):
         return
     add = repo.get(DS, "DenseOutput.add_interpolant")
     # which end does add_interpolant use for a smaller time?  (front insertion under `t - t_eval[-1] < 0`)
+    from ..sym import inline_locals
+    env = inline_locals(m.fn)
     for c in calls:
         arg = c.args[0] if c.args else None
+        while isinstance(arg, ast.Name) and arg.id in env:      # a position computed once before the removal loop
+            arg = env[arg.id]
         ok = False
         why = "no position is passed: the default position is the same for both directions"
         if arg is not None:
